@@ -231,6 +231,34 @@ def _race_stage(prop, tier, seed, workdir, env, root, build, repo, **kw):
         out.append(len(q.stdout.split('\n')))
     return {'violations': viol, 'coverage': {'race_detector_cases': sum(out)}, 'notes': ['-race stress: %d cases, %d reports' % (sum(out), len(viol))]}
 
+def _sig_stage(prop, tier, seed, workdir, env, root, build, repo, **kw):
+    """C17, last clause: the v3 functions that traverse to the end take a FiniteSequence (read from the sources with
+    go/parser): an unbounded sequence cannot be handed to them because it does not have that type"""
+    import subprocess, os
+    exe = os.path.join(workdir, 'exports')
+    p = subprocess.run(['go', 'build', '-o', exe, './cmd/exports'], cwd=os.path.join(root, 'harness'), env=env, stdout=subprocess.PIPE, stderr=subprocess.STDOUT, text=True)
+    if p.returncode != 0:
+        return {'notes': ['exports tool does not build: ' + p.stdout[-300:]]}
+    sigs = {}
+    for line in subprocess.run([exe, '-repo', repo, '-sigs'], stdout=subprocess.PIPE, text=True).stdout.split('\n'):
+        if line.startswith('v3 '):
+            name, _, rest = line[3:].partition('(')
+            sigs[name] = rest.rstrip(')')
+    to_the_end = ['AsString', 'DigitsToString', 'FindAll', 'FindLast', 'FindLastN', 'FindR', 'BackwardMatches', 'Fwrite', 'Swrite', 'Write']
+    viol = []
+    for f in to_the_end:
+        params = sigs.get(f)
+        if params is None:
+            continue      # a removed function is C16's / the build's business
+        ps = [x.strip() for x in params.split(',')]
+        if 'FiniteSequence' not in ps or any(x in ('Sequence', 'Number') for x in ps):
+            path = c05stage.write_replay(root, prop, 'signature', {'property': prop, 'kind': 'failing-input', 'function': 'v3.' + f, 'parameters': params,
+                                          'explanation': 'a function that must traverse its sequence to the end accepts a sequence type that unbounded sequences have'})
+            viol.append((path, True, 'v3.%s(%s) accepts unbounded sequences' % (f, params)))
+    return {'violations': viol, 'coverage': {'signatures_checked': len([f for f in to_the_end if f in sigs])}, 'notes': []}
+
+PROPS['C17']['stages'] = [_sig_stage]
+
 PROPS['C05'] = dict(
     theorem='C05_invariant, C05_return_contract, C05_deadlock_free, C05_can_complete, C05_internal_runs_bounded, C05_maximal_schedules_return_every_call, C05_reach_support, C05_wait_contract, C05_digit_string_closed, C05_acceptor_sound, C05_sequential_answers (Properties/C05.v)',
     functional=True,
